@@ -393,6 +393,7 @@ func (sg *sqlGen) fillTable(idx int, tb *sqlTable) {
 		d.Fields = append(d.Fields, &Field{Name: "Id", Type: Basic("int64")})
 	}
 	var fkFields []string
+	nullableFK := map[string]bool{}
 	for k := 0; k < nFK; k++ {
 		target := others[rapid.IntRange(0, len(others)-1).Draw(t, "fkTarget")]
 		fname := "Id" + target.name
@@ -453,6 +454,7 @@ func (sg *sqlGen) fillTable(idx int, tb *sqlTable) {
 		}
 		d.Fields = append(d.Fields, f)
 		fkFields = append(fkFields, fname)
+		nullableFK[fname] = nullable
 	}
 	// regular columns
 	nCols := rapid.IntRange(1, 6).Draw(t, "nCols")
@@ -586,6 +588,11 @@ func (sg *sqlGen) fillTable(idx int, tb *sqlTable) {
 		kw := "UNIQUE"
 		if !tb.primary && rapid.Bool().Draw(t, "primaryKeyDirective") {
 			kw = "PRIMARY KEY"
+			for _, cn := range cols {
+				if nullableFK[cn] {
+					kw = "UNIQUE" // a primary key column cannot be NULL
+				}
+			}
 		}
 		sep := sg.pick("uniqueSep", []string{"(", " ("})
 		d.Doc = append(d.Doc, fmt.Sprintf("gomacro:SQL ADD %s%s%s)", kw, sep, strings.Join(cols, ", ")))
